@@ -203,8 +203,28 @@ func (p *printer) node(n *Node, d int, nest int) {
 		p.line(d, "fmt.Println(\"after\", %d, %s)", n.ID, v)
 	case "range":
 		k, v := fmt.Sprintf("k%d", n.ID), fmt.Sprintf("v%d", n.ID)
+		if n.Over%5 == 4 {
+			// a loop that empties the map it ranges over: every entry is deleted when it is visited, so each is visited
+			// exactly once whatever the order, and the pass counter is the only thing the body sees of the iteration
+			md, cnt := fmt.Sprintf("md%d", n.ID), fmt.Sprintf("dn%d", n.ID)
+			var entries []string
+			for i := 0; i < 2*n.N+2; i++ {
+				entries = append(entries, fmt.Sprintf("%d: %d", i*7+1, i))
+			}
+			p.line(d, "%s := map[int]int{%s}", md, strings.Join(entries, ", "))
+			p.line(d, "%s := 0", cnt)
+			p.line(d, "for %s := range %s {", k, md)
+			p.line(d+1, "delete(%s, %s)", md, k)
+			p.line(d+1, "%s++", cnt)
+			p.counters = append(p.counters, cnt)
+			p.block(n.Body, d+1, nest+1)
+			p.counters = p.counters[:len(p.counters)-1]
+			p.line(d, "}")
+			p.line(d, "fmt.Println(\"after\", %d, %s, len(%s))", n.ID, cnt, md)
+			break
+		}
 		var over string
-		switch n.Over % 4 {
+		switch n.Over % 5 {
 		case 3: // the function's slice variable itself: nested loops of this kind iterate over the same slice value
 			over = "rs"
 		case 0:
@@ -395,7 +415,7 @@ func (g *genState) stmt(depth int, inLoop, inSwitch bool) *Node {
 		n.Body = g.stmts(depth+1, true, false, 4)
 		return n
 	case 5:
-		n := &Node{K: "range", ID: g.nextID(), N: rx.Range(rt, "bound", 1, 3), Over: rx.Uniform(rt, 4, "over")}
+		n := &Node{K: "range", ID: g.nextID(), N: rx.Range(rt, "bound", 1, 3), Over: rx.Uniform(rt, 5, "over")}
 		n.Body = g.stmts(depth+1, true, false, 4)
 		return n
 	case 6:
